@@ -536,6 +536,58 @@ def attr_memos(ctx):
     ctx.floor(n, 8, 'attribute memos in keys.py')
 
 
+@PROP.obligation('C04.explicit-falsy', canaries=[
+    mut.replace_stmt('keys', 'HDKey.address', 'if compressed is None:', 'compressed = compressed or self.compressed', 'HDKey.address: explicit compressed=False replaced by the flag of the key'),
+])
+def explicit_falsy(ctx):
+    """A parameter of keys.py that is given a default through a truthiness test (`p = p or d`, `if not p: p = d`) is never passed an
+    explicit falsy constant by a caller inside the package: Key.address_uncompressed calls self.address(compressed=False), which
+    dispatches to the HDKey override - there False must stay False (the `is None` form)."""
+    from .common_falsy import falsy_defaults as run
+    run(ctx, ['keys'], 'the address / encoding of the other public-key form is returned: address_uncompressed() of an extended key gives the compressed address')
+
+
+ADDRESS_HASH = [
+    # (encoding, script_type) -> payload of an address built from public-key / script data
+    (('bech32', 'p2wpkh'), 'H160(data)', 20), (('bech32', 'p2wsh'), 'SHA256(data)', 32), (('bech32', 'p2tr'), 'SHA256(data)', 32),
+    ((None, 'p2wpkh'), 'H160(data)', 20), ((None, 'p2wsh'), 'SHA256(data)', 32), ((None, 'p2tr'), 'SHA256(data)', 32),
+    (('base58', 'p2pkh'), 'H160(data)', 20), (('base58', 'p2sh'), 'H160(data)', 20), ((None, 'p2pkh'), 'H160(data)', 20), ((None, None), 'H160(data)', 20),
+    (('base58', 'p2sh_p2wpkh'), 'H160(00 . varstr(H160(data)))', 20), (('base58', 'p2sh_p2wsh'), 'H160(00 . varstr(SHA256(data)))', 20),
+]
+
+
+@PROP.obligation('C04.address-hash', canaries=[
+    mut.replace_expr('keys', 'Address.__init__', "['p2sh', 'p2sh_multisig', 'p2tr']", "['p2sh', 'p2sh_multisig']", 'p2tr address of a key built from a 20-byte hash'),
+    mut.replace_expr('keys', 'Address.__init__', "['p2wsh', 'p2sh_p2wsh']", "['p2sh_p2wsh']", 'p2wsh address built from a 20-byte hash'),
+    mut.replace_expr('keys', 'Address.__init__', "b'\\x00' + varstr(self.hash_bytes)", "varstr(self.hash_bytes)", 'nested segwit redeem script without the version byte'),
+])
+def address_hash(ctx):
+    """Address.__init__ evaluated as a whole for every (encoding, script type) of the property on symbolic key data: the payload
+    (hash_bytes) is HASH160(data) for the 20-byte programs (p2pkh, p2wpkh, p2sh), SHA256(data) for the 32-byte programs (p2wsh, p2tr) and
+    HASH160(00 . push(inner hash)) for the nested forms: a witness-v1 / v0 program of the other length is not an output of that key."""
+    q = 'keys:Address.__init__'
+    fn = ctx.repo.func(q)
+    from ..layout import LAYOUT_HOOKS
+    n = 0
+    for (enc, stype), exp, size in ADDRESS_HASH:
+        it = Interp(ctx.repo, 'keys', hooks=LAYOUT_HOOKS, self_cls='keys:Address')
+        try:
+            exits = it.run_function(fn, {'self': S(SELF), 'data': S(('var', 'data'), 'bytes'), 'hashed_data': '', 'script_type': stype, 'encoding': enc,
+                                         'network': S(('var', 'network')), 'prefix': None, 'witness_type': None, 'witver': 0})
+        except AnalysisError as e:
+            ctx.undecided('Address.__init__(encoding=%r, script_type=%r) not evaluable: %s' % (enc, stype, str(e)[:100]))
+        rets = [e for e in exits if e.kind == 'return']
+        if len(rets) != 1:
+            ctx.undecided('Address.__init__(encoding=%r, script_type=%r): %d normal exits' % (enc, stype, len(rets)))
+        got = show(term(rets[0].heap.get(('attr', SELF, 'hash_bytes'))))
+        got = got.replace("hash('hash160', ", 'H160(').replace('hashlib.sha256(', 'SHA256(').replace(').digest()', ')').replace("00'h", '00')
+        n += 1
+        ctx.saw('encoding=%s script_type=%s: payload %s' % (enc, stype, got))
+        ctx.require(got == exp, q, 'address of key / script data with encoding=%r, script_type=%r carries %s; the standard payload is %s (%d bytes)' % (enc, stype, got[:120], exp, size), fn,
+                    'the address is not an output of that key: a %d-byte program is required for this script type' % size)
+    ctx.floor(n, 12, 'encoding / script type combinations')
+
+
 @PROP.obligation('C04.defaults')
 def api_defaults(ctx):
     """Defaults of the parameters that decide this property for callers who do not pass them: strict validation and compressed keys are the defaults."""
